@@ -162,10 +162,12 @@ Proof.
 Qed.
 
 (* ---- relative_position_angle ---- *)
-(* the right-ascension difference (degrees) wrapped to [-180, 180] as the code does *)
-Definition pa_wrap (D : R) : R :=
-  if Rlt_dec (Rlit 1800 (-1)) D then D - Rlit 3600 (-1)
-  else if Rlt_dec D (Rlit (-1800) (-1)) then D + Rlit 3600 (-1) else D.
+(* the right-ascension difference (degrees) as the code forms it: one operand is shifted by
+   a whole turn before subtracting, then whole turns are removed by rounding *)
+Definition pa_w (a1 a2 : R) : R :=
+  if Rlt_dec (Rlit 1800 (-1)) (a1 - a2) then a1 - Rlit 3600 (-1) - a2
+  else if Rlt_dec (a1 - a2) (Rlit (-1800) (-1)) then a1 - (a2 - Rlit 3600 (-1)) else a1 - a2.
+Definition pa_da (w : R) : R := w - Rlit 3600 (-1) * IZR (Rround (w / Rlit 3600 (-1))).
 (* the two cancellation-free forms of the second atan2 argument *)
 Definition pa_x1 (dd da d1 d2 : R) : R :=
   sin dd + Rlit 20 (-1) * sin d2 * cos d1 * (sin (da / Rlit 20 (-1)) * sin (da / Rlit 20 (-1))).
@@ -179,15 +181,15 @@ Definition pa_old (da d1 d2 : R) : R := atan2 (sin da) (cos d2 * tan d1 - sin d2
 
 Definition pa_deg (a1 d1 a2 d2 : R) : R :=
   r2d (pa_rad (d2r (red360 (d1 + - d2))) (d2r (red360 (d1 + d2)))
-              (d2r (pa_wrap (red360 (a1 + - a2)))) (d2r d1) (d2r d2)).
+              (d2r (pa_da (pa_w a1 a2))) (d2r d1) (d2r d2)).
 
 Lemma relpa_closed a1 d1 a2 d2 :
   -360 < a1 < 360 -> -360 < a2 < 360 -> -360 < d1 < 360 -> -360 < d2 < 360 ->
   f_relative_position_angle Rops (ang a1) (ang d1) (ang a2) (ang d2) = ang (pa_deg a1 d1 a2 d2).
 Proof.
-  intros Ha1 Ha2 Hd1 Hd2. unfold pa_deg, pa_rad, pa_x, pa_wrap, d2r.
-  destruct (Rlt_dec (Rlit 1800 (-1)) (red360 (a1 + - a2))) as [Hw | Hw];
-    [| destruct (Rlt_dec (red360 (a1 + - a2)) (Rlit (-1800) (-1))) as [Hw' | Hw']].
+  intros Ha1 Ha2 Hd1 Hd2. unfold pa_deg, pa_rad, pa_x, pa_da, pa_w, d2r.
+  destruct (Rlt_dec (Rlit 1800 (-1)) (a1 - a2)) as [Hw | Hw];
+    [| destruct (Rlt_dec (a1 - a2) (Rlit (-1800) (-1))) as [Hw' | Hw']].
   - destruct (Rle_dec _ _) as [Hc | Hc].
     + crun. reflexivity.
     + crun. reflexivity.
@@ -199,31 +201,56 @@ Proof.
     + crun. reflexivity.
 Qed.
 
-Lemma pa_wrap_cases D : exists k : Z, pa_wrap D = D + 360 * IZR k.
+Lemma pa_da_cases a1 a2 : exists k : Z, pa_da (pa_w a1 a2) = (a1 - a2) + 360 * IZR k.
 Proof.
-  unfold pa_wrap. destruct (Rlt_dec _ D); [| destruct (Rlt_dec D _)].
-  - exists (-1)%Z. Rlit_norm. lra.
-  - exists 1%Z. Rlit_norm. lra.
-  - exists 0%Z. lra.
+  unfold pa_da. set (n := Rround _). unfold pa_w.
+  destruct (Rlt_dec _ _); [| destruct (Rlt_dec _ _)].
+  - exists (- 1 - n)%Z. rewrite minus_IZR. Rlit_norm. lra.
+  - exists (1 - n)%Z. rewrite minus_IZR. Rlit_norm. lra.
+  - exists (- n)%Z. rewrite opp_IZR. Rlit_norm. lra.
 Qed.
-Lemma cos_d2r_wrap D : cos (d2r (pa_wrap D)) = cos (d2r D).
-Proof. destruct (pa_wrap_cases D) as [k Hk]. rewrite Hk. apply cos_d2r_360k. Qed.
-Lemma sin_d2r_wrap D : sin (d2r (pa_wrap D)) = sin (d2r D).
-Proof. destruct (pa_wrap_cases D) as [k Hk]. rewrite Hk. apply sin_d2r_360k. Qed.
-Lemma pa_wrap_range D : -360 < D < 360 -> -180 <= pa_wrap D <= 180.
+Lemma cos_d2r_da a1 a2 : cos (d2r (pa_da (pa_w a1 a2))) = cos (d2r a1 - d2r a2).
 Proof.
-  intros H. unfold pa_wrap. destruct (Rlt_dec _ D) as [H1 | H1]; [| destruct (Rlt_dec D _) as [H2 | H2]];
-    Rlit_norm_all; lra.
+  destruct (pa_da_cases a1 a2) as [k Hk]. rewrite Hk, cos_d2r_360k. f_equal. unfold d2r. ring.
+Qed.
+Lemma sin_d2r_da a1 a2 : sin (d2r (pa_da (pa_w a1 a2))) = sin (d2r a1 - d2r a2).
+Proof.
+  destruct (pa_da_cases a1 a2) as [k Hk]. rewrite Hk, sin_d2r_360k. f_equal. unfold d2r. ring.
+Qed.
+
+(* round-half-even of a number in [-1/2, 1/2] is 0 *)
+Lemma Rround_small x : - (1 / 2) <= x <= 1 / 2 -> Rround x = 0%Z.
+Proof.
+  intros Hx. unfold Rround.
+  destruct (Rle_dec 0 x) as [Hp | Hn].
+  - assert (E : Rfloor x = 0%Z) by (apply Rfloor_unique; simpl; lra).
+    rewrite E. simpl. replace (x - 0) with x by ring.
+    destruct (Rlt_dec x (1 / 2)); [reflexivity |]. destruct (Rlt_dec (1 / 2) x); [lra | reflexivity].
+  - assert (E : Rfloor x = (-1)%Z) by (apply Rfloor_unique; simpl; lra).
+    rewrite E. simpl.
+    destruct (Rlt_dec (x - -1) (1 / 2)); [lra |]. destruct (Rlt_dec (1 / 2) (x - -1)); reflexivity.
+Qed.
+
+(* for canonical right ascensions the difference comes out in [-180, 180] and the rounding
+   term vanishes *)
+Lemma pa_da_range a1 a2 : 0 <= a1 < 360 -> 0 <= a2 < 360 ->
+  pa_da (pa_w a1 a2) = pa_w a1 a2 /\ -180 <= pa_w a1 a2 <= 180.
+Proof.
+  intros H1 H2.
+  assert (Hw : -180 <= pa_w a1 a2 <= 180).
+  { unfold pa_w. destruct (Rlt_dec _ _) as [A | A]; [| destruct (Rlt_dec _ _) as [B | B]];
+      Rlit_norm_all; lra. }
+  split; [| assumption]. unfold pa_da. rewrite Rround_small; [simpl; ring |].
+  Rlit_norm. lra.
 Qed.
 
 (* both forms of x are  sin d1 cos d2 - sin d2 cos d1 cos (a1 - a2)  = u1 . north2 *)
 Lemma pa_x_value A1 D1 A2 D2 :
-  pa_x (d2r (red360 (D1 + - D2))) (d2r (red360 (D1 + D2))) (d2r (pa_wrap (red360 (A1 + - A2))))
+  pa_x (d2r (red360 (D1 + - D2))) (d2r (red360 (D1 + D2))) (d2r (pa_da (pa_w A1 A2)))
        (d2r D1) (d2r D2)
   = sin (d2r D1) * cos (d2r D2) - sin (d2r D2) * cos (d2r D1) * cos (d2r A1 - d2r A2).
 Proof.
-  assert (Hca : cos (d2r (pa_wrap (red360 (A1 + - A2)))) = cos (d2r A1 - d2r A2)).
-  { rewrite cos_d2r_wrap, cos_d2r_red360. f_equal. unfold d2r. ring. }
+  assert (Hca : cos (d2r (pa_da (pa_w A1 A2))) = cos (d2r A1 - d2r A2)) by apply cos_d2r_da.
   unfold pa_x. destruct (Rle_dec _ _) as [Hc | Hc].
   - unfold pa_x1. replace (Rlit 20 (-1)) with 2 by (Rlit_norm; lra).
     rewrite sin2_half, Hca, sin_d2r_red360.
@@ -235,9 +262,8 @@ Proof.
     rewrite sin_plus. field.
 Qed.
 
-Lemma pa_y_value A1 A2 :
-  sin (d2r (pa_wrap (red360 (A1 + - A2)))) = sin (d2r A1 - d2r A2).
-Proof. rewrite sin_d2r_wrap, sin_d2r_red360. f_equal. unfold d2r. ring. Qed.
+Lemma pa_y_value A1 A2 : sin (d2r (pa_da (pa_w A1 A2))) = sin (d2r A1 - d2r A2).
+Proof. apply sin_d2r_da. Qed.
 
 (* the computed angle equals the quotient form of Meeus when cos d1 > 0 *)
 Theorem relpa_quotient_form a1 d1 a2 d2 : 0 < cos (d2r d1) ->
